@@ -1,4 +1,5 @@
 """C04 - A client sees its own location's records plus untagged ones, nothing else."""
+import os
 from checklib import clist
 from props.corecase import file_to_coq, file_nontrivial, shrink_file, cbytes
 
@@ -33,6 +34,12 @@ def case_class(c):
 
 
 def shrink_candidates(c):
+    if os.environ.get("VERIF_NO_SHRINK"):
+        return iter(())
+    return _shrink_candidates(c)
+
+
+def _shrink_candidates(c):
     qs = c["before"]["queries"]
     if len(qs) > 1:
         h = len(qs) // 2
